@@ -1,7 +1,9 @@
 (* C10 - normal forms and Boolean quantifier elimination: statements only. *)
 From Coq Require Import List ZArith Bool String Reals Permutation.
 From PySMT.core Require Import Syntax Sem.
-From PySMT.models Require Import Oracles C10Local Nnf Aig Partition Qelim TimesDist PropTop Prenex.
+From PySMT.models Require Import TypeChecker Oracles C10Local Nnf Aig Partition Qelim TimesDist PropTop PropTopSimp Prenex.
+From PySMT.models Require Simplifier.
+From PySMT.proofs Require SimplifierSem_proofs PropTopSimp_proofs.
 From PySMT.proofs Require Import C10Local_proofs Nnf_proofs Aig_proofs Partition_proofs Qelim_proofs TimesDist_proofs PropTop_proofs Prenex_proofs PrenexEquiv_proofs.
 Import ListNotations.
 
@@ -76,15 +78,34 @@ Theorem C10_proptop_refuted :
     propagate_toplevel order t = Some r /\ holds I t /\ ~ holds I r.
 Proof. exact proptop_full_refuted. Qed.
 Print Assumptions C10_proptop_refuted.
-(* proved part: quantifier-free inputs (the open finding cannot occur), every node-id order, on the
-   path that builds a substitution.  The other path (two different constants in one class: the
-   result is FALSE) additionally needs "different constant nodes denote different values" and is
-   carried by correspondence + oracle. *)
-Theorem C10_proptop_equiv_partial : forall order t r I,
-  is_qf t = true -> normal t = true -> boolish t = true -> wf_interp I ->
-  propagate_toplevel order t = Some r -> r <> TFalse -> eval I r = eval I t.
-Proof. exact proptop_equiv_partial'. Qed.
-Print Assumptions C10_proptop_equiv_partial.
+(* proved complement: the substitution is sound whenever no symbol of a top-level definition l = r
+   (the only possible keys and replacements) is bound anywhere in the formula; every node-id order;
+   both paths (substitution built / two different constants in one class -> FALSE).  defs_const_ok:
+   the constants of those definitions carry no arguments and Real constants are in lowest terms
+   (what the FormulaManager guarantees). *)
+Theorem C10_proptop_equiv_unbound : forall order t r I,
+  normal t = true -> boolish t = true -> defs_const_ok t = true -> defs_unbound t -> wf_interp I ->
+  propagate_toplevel order t = Some r -> eval I r = eval I t.
+Proof. exact proptop_equiv_unbound. Qed.
+Print Assumptions C10_proptop_equiv_unbound.
+(* quantifier-free inputs: nothing is bound *)
+Theorem C10_proptop_equiv_qf : forall order t r I,
+  is_qf t = true -> normal t = true -> boolish t = true -> defs_const_ok t = true -> wf_interp I ->
+  propagate_toplevel order t = Some r -> eval I r = eval I t.
+Proof. exact proptop_equiv_qf. Qed.
+Print Assumptions C10_proptop_equiv_qf.
+
+(* do_simplify=True (the default): composition with C01's simplify_sound_partial.  Side conditions of
+   C01 on the formula handed to the simplifier, i.e. the unsimplified result r: in C01's fragment,
+   Boolean for the type checker, division-safe under I. *)
+Theorem C10_proptop_simp_equiv : forall ora order t r s I,
+  normal t = true -> boolish t = true -> defs_const_ok t = true -> defs_unbound t -> wf_interp I ->
+  propagate_toplevel order t = Some r ->
+  SimplifierSem_proofs.in_frag r = true -> tc r = Some TBool -> div_safe I r ->
+  propagate_toplevel_simp ora order t = Some s ->
+  tc s = Some TBool /\ eval I s = eval I t.
+Proof. exact PropTopSimp_proofs.proptop_simp_equiv. Qed.
+Print Assumptions C10_proptop_simp_equiv.
 
 (* ---------------- prenex normal form ---------------- *)
 Theorem C10_prenex_shape : forall n t r, pq_frag t = true -> prenex n t = Some r -> prenex_shape r = true.
@@ -103,3 +124,45 @@ Theorem C10_prenex_equiv_partial : forall n t, is_qf t = true -> pq_frag t = tru
   exists r, prenex n t = Some r /\ forall I, holds I r <-> holds I t.
 Proof. exact prenex_equiv_partial. Qed.
 Print Assumptions C10_prenex_equiv_partial.
+
+(* ---- the case analysis of the model is the dispatch of the source (gen/Operators.v and gen/Dispatch.v are
+   REGENERATED from pysmt/operators.py and the walker classes on every run; qualified names only) *)
+From PySMT.gen Require Operators Dispatch.
+From PySMT.proofs Require Operators_proofs Dispatch_rewriters_proofs.
+Theorem C10_operator_table_matches_source :
+  (forall n, List.In n Operators.all_node_types) /\
+  (forall a b, Operators.nt_id a = Operators.nt_id b -> a = b) /\
+  (forall o, Operators.nt_modelled (Operators.nt_of_op o) = true) /\
+  (forall n, Operators.nt_modelled n = false <-> n = Operators.NT_ALGEBRAIC_CONSTANT).
+Proof.
+  exact (conj Operators_proofs.all_node_types_complete (conj Operators_proofs.nt_id_injective
+         (conj Operators_proofs.nt_of_op_modelled Operators_proofs.only_algebraic_constant_unmodelled))).
+Qed.
+
+Theorem C10_rewriters_dispatch_matches_source : forall n,
+  Dispatch_rewriters_proofs.nnf_handler_of_name (Dispatch.nnf_dispatch n) = Dispatch_rewriters_proofs.nnf_expected n /\
+  Dispatch_rewriters_proofs.aig_handler_of_name (Dispatch.aig_dispatch n) = Dispatch_rewriters_proofs.aig_expected n /\
+  Dispatch_rewriters_proofs.prenex_handler_of_name (Dispatch.prenex_dispatch n) = Dispatch_rewriters_proofs.prenex_expected n /\
+  Dispatch_rewriters_proofs.nnf_expected n <> None /\ Dispatch_rewriters_proofs.aig_expected n <> None /\
+  Dispatch_rewriters_proofs.prenex_expected n <> None.
+Proof.
+  intro n.
+  destruct (Dispatch_rewriters_proofs.nnf_dispatch_matches_source n) as [A1 A2].
+  destruct (Dispatch_rewriters_proofs.aig_dispatch_matches_source n) as [B1 B2].
+  destruct (Dispatch_rewriters_proofs.prenex_dispatch_matches_source n) as [C1 C2].
+  repeat split; assumption.
+Qed.
+Theorem C10_nnf_leaf_handlers : forall o h args,
+  Dispatch_rewriters_proofs.nnf_handler_of_name (Dispatch.nnf_dispatch (Operators.nt_of_op o)) = Some h ->
+  Dispatch_rewriters_proofs.nnf_is_leaf_handler h = true -> nnf_p true (T o args) = T o args.
+Proof. intros o h args H1 H2. exact (proj1 (Dispatch_rewriters_proofs.nnf_leaf_handlers_are_the_otherwise_arm o h args H1 H2)). Qed.
+Theorem C10_aig_nop_handler : forall o args,
+  Dispatch_rewriters_proofs.aig_handler_of_name (Dispatch.aig_dispatch (Operators.nt_of_op o)) = Some Dispatch_rewriters_proofs.G_nop ->
+  aig (T o args) = T o args.
+Proof. intros o args H. exact (proj1 (Dispatch_rewriters_proofs.aig_nop_is_the_otherwise_arm o args H)). Qed.
+Theorem C10_prenex_leaf_handlers : forall o h b args n,
+  Dispatch_rewriters_proofs.prenex_handler_of_name (Dispatch.prenex_dispatch (Operators.nt_of_op o)) = Some h ->
+  Dispatch_rewriters_proofs.prenex_leaf_rule h o = Some b ->
+  pw (T o args) n = (n, if b then Some ([], T o args) else None).
+Proof. intros o h b args n H1 H2. exact (proj1 (Dispatch_rewriters_proofs.prenex_leaf_handlers_are_the_otherwise_arm o h b args n H1 H2)). Qed.
+Print Assumptions C10_rewriters_dispatch_matches_source.
